@@ -316,6 +316,15 @@ class SemJudge(Judge):
             self.count('rule_' + r)
         if obj['wellformed']:
             self.count('wellformed')
+        if self.prop == 'C03':
+            # only the outcome type matters here: an Api or a spec error
+            self.judged += 1
+            if out[0] == 'exc':
+                e = out[1]
+                self.violation('exc_%s' % type(e).__name__,
+                               'frontend raised %s instead of a spec error: %s (rules broken: %s)'
+                               % (type(e).__name__, str(e)[:200], obj['violations']), ctx)
+            return
         if out[0] == 'exc' and self.prop in ('C01',):
             e = out[1]
             self.violation('exc_%s' % type(e).__name__,
